@@ -28,8 +28,9 @@ PROP = "C06"
 RUNS = {"quick": 1200, "thorough": 50000}
 DEADLINE = {"quick": 200, "thorough": 3000}
 OPS_KEYS = ("ops", "ops2", "probes")
-RULE = ("case = (config with explicit entropy, experiment A or B, op list(s) with two independent cache-fault plans, "
-        "probe list) from seeded named PRNG streams; distinct = distinct hash of the case; non-trivial = at least one "
+RULE = ("case = (config with explicit entropy incl. edge values, experiment A | B | D (decoy + fresh-process replica) | "
+        "T (two threads under a seeded baton-passing scheduler), op list(s) with independent cache-fault plans, probe "
+        "list with one-sided pre-probe ops) from seeded named PRNG streams; distinct = distinct hash of the case; non-trivial = at least one "
         "pair of answers from the two replicas was compared AND (a cache fault fired in either replica OR cache_size "
         "<= 3) AND, for experiment B, the two histories differ")
 ASSUMPTIONS = ["torch.Generator/np.random.SeedSequence are deterministic functions of their seed",
@@ -37,7 +38,9 @@ ASSUMPTIONS = ["torch.Generator/np.random.SeedSequence are deterministic functio
                "histories are sampled, not enumerated"]
 REAL_VS_STUB = {"real": ["torchsde.BrownianInterval/BrownianTree/ReverseBrownian", "trampoline", "numpy SeedSequence",
                          "torch kernels"],
-                "stub": ["value cache wrapped by FaultyCache (forwarding), one independent plan per replica"]}
+                "stub": ["value cache wrapped by FaultyCache (forwarding), one independent plan per replica",
+                         "thread scheduler (sim/threads.py): real threads, interleaving decided by the simulator (experiment T)",
+                         "torch.randn wrapped as a pre-emption point (experiment T)"]}
 PROBES = ("pairs_compared", "expA", "expB", "expD", "expT", "one_sided_pre_probe_ops", "thread_switches", "preemption_points", "expB_histories_differ", "expB_trees_differ", "probe_offgrid", "probe_with_A",
           "probe_with_U", "entropy_differs_checked", "tree_front", "reverse_front", "tiny_cache")
 STATE_MEASURE = "distinct pairs of final interval-tree shapes of the two replicas"
